@@ -267,7 +267,7 @@ PropSpec {
     default_seed: 1818,
     rule: "long runs (600-20000 frames) in six equal parts: all-local sessions without any remote; sessions whose events are never drained while unequal tick rates keep WaitRecommendations coming; hosts whose spectator stops polling for good; desync detection with lost ChecksumReports; repeated one-way input/ack outages of up to 0.9 x timeout; plain long runs of C01's space. After every API call the sizes read through the accessor must respect bounds that depend only on the configuration: event queue <= 100, pending local inputs <= local players, nothing queued for sending without remotes, unacknowledged inputs per endpoint <= 128 + window + 8, remembered received inputs <= 2 x max(2 x window, 129) + 4, pending checksums <= 64, checksum history <= 33; a silent spectator must have been disconnected. Non-trivial = >= 600 frames simulated; distinct = distinct executed-schedule hash",
     nontrivial: nt_c18,
-    required_probes: &["silent_spectators_checked", "wait_recommendation", "drop_window", "input_ring_wraps", "spectator_frames"],
+    required_probes: &["silent_spectators_checked", "silent_spectators_cut_loose", "wait_recommendation", "drop_window", "input_ring_wraps", "spectator_frames"],
     assumptions: &["the allocator-slope test of the design was dropped: the harness game's own history grows with the run and cannot be separated from the session's allocations by a per-thread counter", "sizes are read through the verif-hooks accessor"],
     twin: None,
 }];
